@@ -138,6 +138,26 @@ func genGen(r *rand.Rand, idx int, stream string) GenInput {
 			}
 		}
 	}
+	if v, ok := in.Options["unroll-variadic"].(bool); ok && v && stream == "" {
+		// unrolled variadic arguments are copied into a []interface{} unless they already are one: element types
+		// that merely *look* like the empty interface (a defined type over it, a type parameter) still need the copy
+		val := TyJ{K: "named", Pkg: pkgAlpha, PkgName: "alpha", Name: "Val", UnderNillable: true}
+		for i := range in.Data.Ifaces {
+			it := &in.Data.Ifaces[i]
+			for j := range it.Methods {
+				m := &it.Methods[j]
+				if m.From != "" || !m.Variadic || len(m.Params) == 0 || r.Intn(2) == 0 {
+					continue
+				}
+				el := val
+				if len(it.TypeParams) > 0 && it.TypeParams[0].Constraint.K == "universe" && it.TypeParams[0].Constraint.Name == "any" && r.Intn(2) == 0 {
+					el = TyJ{K: "typeparam", Name: it.TypeParams[0].Name}
+				}
+				e := el
+				m.Params[len(m.Params)-1].Type = TyJ{K: "slice", Elem: &e}
+			}
+		}
+	}
 	in.OptLevels = map[string]string{}
 	for _, k := range sortedKeys(in.Options) {
 		in.OptLevels[k] = pick(r, []string{"top", "top", "package", "interface", "iface-over-package", "split", "split"})
